@@ -7,7 +7,7 @@ set -u
 BASE=193dfc0
 WT=/var/tmp/bt-validate-wt
 BLD=/var/tmp/bt-validate-build
-LOG=/verif/notes/fix-commit-validation.log
+LOG=/verif/notes/fix-commit-validation${1:+-from-$1}.log
 FIRST=${1:-}
 git -C /repo worktree remove --force $WT 2>/dev/null
 rm -rf $WT $BLD
